@@ -590,8 +590,10 @@ func (b *BFT) Pacemaker() {
 			continue
 		}
 		totalVotedPower += validator.VotingPower
-		// if totalVotePower >= +33%, it's safe to advance to that round
-		if totalVotedPower >= lib.Uint64ReducePercentage(b.ValidatorSet.MinimumMaj23, 50) {
+		// if totalVotePower >= +33%, it's safe to advance to that round: the power must EXCEED what faulty validators may hold
+		// (TotalPower - MinimumMaj23), so that at least one correct validator really is in that round; half of the +2/3
+		// threshold rounds down to 1/4 of a small committee and lets a single validator name any round
+		if totalVotedPower > b.ValidatorSet.TotalPower-b.ValidatorSet.MinimumMaj23 {
 			pacemakerRound = vote.Qc.Header.Round // set the highest round where +1/3rds have been
 			break
 		}
